@@ -410,6 +410,53 @@ def _cases_failed_put(tier, rng):
                 yield {"kind": kind, "cfg": {"max_size": ms, **cfg}, "ops": ops}
 
 
+def _cases_kinds(tier, rng):
+    """Keys that compare equal but are of different kinds (1 / 1.0 / True), with look-ups of other keys in between."""
+    pairs = [(("x", 1), ("x", 1.0)), (("x", 1), ("x", True)), (2, 2.0), (("y", 0.0), ("y", False)), ((1, 2), (1.0, 2.0))]
+    for kind, cfg in (("simple", {}), ("lru", {}), ("hybrid", {}), ("disk", {"with_lru": False}), ("disk", {"with_lru": True})):
+        for k1, k2 in pairs:
+            for between in ((0, 1, 130, 300) if tier == "quick" else (0, 1, 2, 64, 127, 128, 129, 130, 200, 300, 600)):
+                yield {"kind": kind, "cfg": {"max_size": None if kind == "disk" else 5000, **cfg}, "k1": k1, "k2": k2,
+                       "between": between, "swap": rng.random() < 0.5}
+
+
+def _check_kinds(case):
+    kind, k1, k2 = case["kind"], case["k1"], case["k2"]
+    k1, k2 = (tuple(k1) if isinstance(k1, list) else k1), (tuple(k2) if isinstance(k2, list) else k2)
+    if case.get("swap"):
+        k1, k2 = k2, k1
+    tmp = tempfile.mkdtemp(prefix="vf_c14k_") if kind == "disk" else None
+    bad = []
+    try:
+        cache = _mk_cache(kind, case["cfg"], tmp)
+        put = (lambda k, v: cache.put(k, v, 1.0)) if kind == "hybrid" else cache.put
+        put(k1, "v1")
+        for i in range(case["between"]):  # look-ups of keys that were never put: nothing is stored, nothing evicted
+            if ("other", i) in cache:
+                bad.append(f"('other', {i}) reported present, it was never put")
+        _ = k2 in cache
+        cache.get(k2)
+        what = f"put({k1!r}), {case['between']} look-ups of other keys, one look-up of {k2!r}"
+        if k1 not in cache or cache.get(k1) != "v1":
+            bad.append(f"{what}: {k1!r} in cache = {k1 in cache}, get = {cache.get(k1)!r}; 'v1' was put for it and nothing "
+                       "was put, cleared or evicted since")
+        if kind == "disk":
+            again = _mk_cache(kind, case["cfg"], tmp)
+            if k1 not in again or again.get(k1) != "v1":
+                bad.append(f"{what}, directory reopened: {k1!r} in cache = {k1 in again}, get = {again.get(k1)!r}")
+        put(k2, "v2")
+        if k2 not in cache or cache.get(k2) != "v2":
+            bad.append(f"{what}, put({k2!r}): get({k2!r}) = {cache.get(k2)!r}, 'v2' was put for it last")
+        # (whether the container takes k1 and k2 for one key is its own matter: either value, but presence agrees with get)
+        g1 = cache.get(k1)
+        if g1 not in ("v1", "v2") or (k1 not in cache):
+            bad.append(f"{what}, put({k2!r}): {k1!r} in cache = {k1 in cache}, get = {g1!r}")
+        return bad
+    finally:
+        if tmp:
+            shutil.rmtree(tmp, ignore_errors=True)
+
+
 def _put(kind, k):
     return ("put", k, 1.0) if kind == "hybrid" else ("put", k)
 
@@ -483,6 +530,9 @@ def bounded_checks():
                                                             "only under the lock)", shards=6, **kw)))
     out.append(("failed-puts-are-no-puts", Check("failed-puts-are-no-puts", _cases_failed_put, _check,
                                                  RULE + " + puts of a value that cannot be serialised", shards=2)))
+    out.append(("equal-keys-of-different-kinds", Check("equal-keys-of-different-kinds", _cases_kinds, _check_kinds,
+                                                       "cache type x pair of equal keys of different kinds x number of "
+                                                       "look-ups of other keys in between (0..600)", shards=2, key=repr)))
     out.append(("disk-vs-model", Check("disk-vs-model", _cases_disk, _check, RULE + " + reopen(max_size)", shards=4,
                                        **kw)))
     return out
